@@ -1,28 +1,22 @@
 ----------------------------- MODULE MC_hashes ------------------------------
 (* Bounded model of the hash family (C04). *)
-EXTENDS MCBase
+EXTENDS Universe
 
-ka == B("a")
-kb == B("b")
-f == B("f")
 g == B("g")
 h == B("h")
-x == B("x")
 Keys == {ka, kb}
 Flds == {f, g}
-N(i) == Itoa(i)
 MaxI == B("9223372036854775807")
 MinI == B("-9223372036854775808")
 HashU == UNION {[F -> {x, N(7)}] : F \in (SUBSET Flds) \ {{}}}
-         \cup {(f :> MaxI), (f :> MinI), (f :> N(-5)) @@ (g :> N(5)), (f :> B("0.5")) @@ (g :> B("-1.25")), (f :> B(""))}
+         \cup {(f :> MaxI), (f :> MinI), (f :> B("9223372036854775806")) @@ (g :> B("-9223372036854775807")), (f :> N(-5)) @@ (g :> N(5)), (f :> B("0.5")) @@ (g :> B("-1.25")), (f :> B(""))}
 ValU == {VHash(hh, 0) : hh \in HashU} \cup {VStr(x, 0), VList(<<x>>, 0)}
 Dbs0 == {d \in UNION {[K -> ValU] : K \in SUBSET Keys} : kb \in DOMAIN d => d[kb].ty # "hash" \/ d[kb].h \in [Flds -> {x, N(7)}] \cup {(f :> x)}}
 HashStates == {WithDb0(InitServer({1}), d) : d \in Dbs0}
 
-C(name, args) == <<B(name)>> \o args
 \* HINCRBYFLOAT on a field holding +-2^63 is numeric accuracy (float64 vs long double), not claimed
-HashRelevant(s, cmd) == ~(CmdName(cmd) = "HINCRBYFLOAT" /\ ka \in DOMAIN s.dbs[0] /\ s.dbs[0][ka].ty = "hash" /\ s.dbs[0][ka].h \in {(f :> MaxI), (f :> MinI)})
-Incs == {N(1), N(-1), N(0), N(3), N(-3), N(5), N(-10), MaxI, MinI, x, B("1.5"), B("")}
+HashRelevant(s, cmd) == ~(CmdName(cmd) = "HINCRBYFLOAT" /\ ka \in DOMAIN s.dbs[0] /\ s.dbs[0][ka].ty = "hash" /\ (\E ff \in DOMAIN s.dbs[0][ka].h : Len(s.dbs[0][ka].h[ff]) > 9))
+Incs == {N(1), N(-1), N(0), N(3), N(-3), N(5), N(-10), N(2), N(-2), MaxI, MinI, x, B("1.5"), B("")}
 FInc == {B("0.5"), B("-0.25"), B("3"), B("0"), B("1.75"), x, B("")}
 
 HashCmds ==
